@@ -22,7 +22,7 @@
    model's signed entry lists (arel_add_sound) — it is NOT linked to C17's gmap model. *)
 From Coq Require Import ZArith QArith Qcanon List Bool PArith.
 Import ListNotations.
-From PV Require Import Model.C14_simplify Proofs.C14_simplify Proofs.C14_compose.
+From PV Require Import Model.C14_simplify Proofs.C14_simplify Proofs.C14_compose Proofs.C15_square Proofs.C14_example.
 Open Scope Qc_scope.
 
 (* ca.substitute followed by CasADi's on-the-fly re-simplification (mk_un / mk_bin, 30 rewrite
@@ -134,6 +134,14 @@ Theorem C14_preserves (r : env) (o : options) (m : model) :
   (sat2 r m <-> sat2 r (simplify o m)).
 Proof. exact (simplify_sound r o m). Qed.
 Print Assumptions C14_preserves.
+
+(* non-vacuity of the composition: for the regular example m_ex under o_ex (eliminate_constant_
+   assignments, replace_parameter_values, replace_constant_values, eliminable_variable_expression +
+   expand_mx, detect_aliases) every carve-out hypothesis (run_ok / loop_ok) is PROVED, so simplify()
+   preserves its solutions for every valuation *)
+Example C14_preserves_example (r : env) : sat2 r m_ex <-> sat2 r (simplify o_ex m_ex).
+Proof. exact (ex_preserves r). Qed.
+Print Assumptions C14_preserves_example.
 
 (* non-vacuity: a concrete regular model with a parameter, a constant, an eliminable variable and
    a negative alias is satisfied by its solution; simplify() with six options leaves one unknown,
